@@ -74,10 +74,10 @@ func (e *FnEnc) Encode() (err error) {
 	if len(e.fn.Blocks) == 0 {
 		return fmt.Errorf("%s: no body", e.key)
 	}
-	if e.fn.Recover != nil {
-		e.note(e.key + ": function has a recover block; panics recovered there are not modelled")
-	}
 	e.reset()
+	if e.fn.Recover != nil {
+		e.note(e.key + ": function has deferred calls (run at every return; panics/recover are not modelled)")
+	}
 	if err := e.findLoops(); err != nil {
 		return err
 	}
@@ -1095,7 +1095,7 @@ func (e *FnEnc) encIndexAddr(x *ssa.IndexAddr) {
 	case *types.Slice:
 		s := e.val(x.X)
 		e.panicCheck("index", e.posLabel(x.Pos(), "index"), sand(e.idxLe(e.idxConst(0), i), e.idxLt(i, s.L[2])), x.Pos())
-		e.vals[x] = e.elemAddr(s.L[0], e.idxAdd(s.L[1], i), t.Elem(), x.Type())
+		e.vals[x] = e.elemAddrRel(s.L[0], s.L[1], i, t.Elem(), x.Type())
 	case *types.Pointer:
 		at := t.Elem().Underlying().(*types.Array)
 		p := e.val(x.X)
